@@ -20,9 +20,9 @@ META = {
         "distinct IBANs validated resp. rebuilt"
     ),
     "assumptions": ["nationally valid = accepted by the library with validate_bban=True (inputs supplied independently by R-NAT forcing)"],
-    "min_distinct": {"quick": 6000, "thorough": 150000},
+    "min_distinct": {"quick": 12000, "thorough": 500000},
 }
-SIZES = {"quick": dict(gen=120, rebuild=40), "thorough": dict(gen=4000, rebuild=1200)}
+SIZES = {"quick": dict(gen=300, rebuild=100), "thorough": dict(gen=15000, rebuild=4000)}
 
 
 def plan(tier, seed):
